@@ -28,7 +28,7 @@ EXPECTED_STATE = {"setup_m2": 2, "setup_m4": 4, "setup_m6": 6, "verify_m2": 2, "
 def build_grid() -> list[dict]:
     cells = []
     for step in STEPS:
-        drivers = ["ip"] if step in ("add_m2", "remove_m2") else ["pipe-ble"] if step == "resume_m2" else ["pipe-ip", "pipe-ble", "ip", "ble-link", "coap"]
+        drivers = ["ip", "ble"] if step in ("add_m2", "remove_m2") else ["pipe-ble"] if step == "resume_m2" else ["pipe-ip", "pipe-ble", "ip", "ble-link", "coap"]
         exp = EXPECTED_STATE[step]
         states = ["expected", "absent"] + [s for s in (exp - 1, exp + 1, exp + 2, 0, 255) if s != exp]
         for driver in drivers:
@@ -58,7 +58,7 @@ REAL = ["aiohomekit.protocol (error_handler, handle_state_step, all three genera
         "aiohomekit.controller.ip.connection / discovery / pairing (ip driver)", "aiohomekit.controller.ble.client.drive_pairing_state_machine (ble-link driver)",
         "aiohomekit.controller.coap.connection do_pair_setup / do_pair_setup_finish / do_pair_verify (coap driver)"]
 STUB = ["accessory (reference responders producing the scripted reply)", "pipe / simulated TCP", "entropy"]
-ASSUMPTIONS = ["add/remove pairing are enumerated on IP only (BLE/CoAP management calls are not in the grid)"]
+ASSUMPTIONS = ["add/remove pairing are enumerated on IP and BLE (as the property's quantifier states); CoAP management calls are not in the grid"]
 TIERS = {"quick": {"runs": len(GRID), "wall": 100}, "thorough": {"runs": len(GRID) * 40, "wall": 1500}}
 
 
@@ -122,8 +122,9 @@ def execute(plan: dict, ch: Chooser) -> dict:
         else:
             want = expected_error_class(code)
             ok = name == want
-            if step == "remove_m2":
-                ok = name == ("AuthenticationError" if code == 2 else "UnknownError") or name == want
+            if step in ("add_m2", "remove_m2"):
+                ok = isinstance(exc, HomeKitException)  # "fails with a library error": no class is documented per code for these calls
+                want = "a library error (HomeKitException)"
             if not ok:
                 ctx.violate("wrong-exception-class", f"{step}/{driver}/state={state}/got={name}",
                             f"{desc}: documented class {want}, raised {exc!r}")
@@ -200,7 +201,62 @@ def _run_resume(cell, ch, ctx, mut):
 
 
 def _run_pairings(cell, ch, ctx, mut):
+    if cell["driver"] == "ble":
+        return _run_ble_pairings(cell, ch, ctx, mut)
     return _run_ip(cell, ch, ctx, pairings_mut=mut)
+
+
+def _run_ble_pairings(cell, ch, ctx, mut):
+    """real BlePairing.add_pairing / remove_pairing over the simulated bleak backend; the reference GATT accessory answers the
+    pairings characteristic with the cell's scripted reply"""
+    import bleak  # noqa: F401
+    from refimpl import ble_accessory as ba
+    from worlds import ble as wble
+    from worlds import disc
+
+    seams.install_ble()
+    disc.install()
+    wble.install()
+    loop = SimLoop(max_iterations=400_000)
+    ctx.loop = loop
+    ident = hap.AccessoryIdentity("aa:bb:cc:dd:ee:04", ch.nbytes("ltsk", 32))
+    ios_ltsk = ch.nbytes("ios", 32)
+    acc = ba.BleAccessory(ident, {"ios-1": RC.ed_pub(ios_ltsk)}, ba.standard_services([]), eph=lambda w_, n: ch.nbytes("acc." + w_, n))
+    wble.SimLink(ctx, "00:11:22:33:44:04", acc, {"mtu": 247})
+    acc.frag_size = 244
+    acc.pairings_mut = lambda method, reply: hap.VerifyResponder._error_reply(b"\x02", mut, reply)
+    res = {"result": None, "exc": None}
+
+    async def main():
+        from aiohomekit.characteristic_cache import CharacteristicCacheMemory
+        from aiohomekit.controller.ble.controller import BleController
+
+        c = BleController(char_cache=CharacteristicCacheMemory())
+        await c.async_start()
+        dev, adv = disc.ble_objects("00:11:22:33:44:04", "SimBLE", {76: disc.regular_advert("aa:bb:cc:dd:ee:04", gsn=1, cn=1)})
+        c._device_detected(dev, adv)
+        rec = {"AccessoryPairingID": "aa:bb:cc:dd:ee:04", "AccessoryLTPK": ident.ltpk.hex(), "iOSPairingId": "ios-1", "iOSDeviceLTSK": ios_ltsk.hex(),
+               "iOSDeviceLTPK": RC.ed_pub(ios_ltsk).hex(), "Connection": "BLE", "AccessoryAddress": "00:11:22:33:44:04"}
+        p = c.load_pairing("alias", rec)
+        try:
+            if cell["step"] == "add_m2":
+                await p.add_pairing("other-controller", (b"\x11" * 32).hex(), "User")
+                res["result"] = "done"
+            else:
+                r_ = await p.remove_pairing("other-controller")
+                res["result"] = "done" if r_ is not False else None
+        except Exception as e:  # noqa: BLE001
+            res["exc"] = e
+        try:
+            await p.shutdown()
+        except Exception:  # noqa: BLE001
+            pass
+
+    try:
+        loop.run_sim(main())
+    except SimDeadlock as e:
+        ctx.violate("deadlock", "ble", str(e))
+    return res["result"], res["exc"]
 
 
 def _run_ip(cell, ch, ctx, verify_mut=None, pairings_mut=None):
